@@ -76,8 +76,11 @@ func (a *HMACAuth) Verify(r *http.Request, requestPath string, body []byte) erro
 		return ErrUnauthorized
 	}
 	t := time.Unix(ts, 0).UTC()
+	// Read the clock once so that the tolerance check and the nonce check
+	// agree on the current instant.
+	cur := now().UTC()
 	if a.Tolerance > 0 {
-		d := now().UTC().Sub(t)
+		d := cur.Sub(t)
 		if d < -a.Tolerance || d > a.Tolerance {
 			return ErrUnauthorized
 		}
@@ -88,7 +91,7 @@ func (a *HMACAuth) Verify(r *http.Request, requestPath string, body []byte) erro
 	} else {
 		a.nonce.setNow(now)
 	}
-	if !a.nonce.seenOnce(nonce, t.Add(a.Tolerance)) {
+	if !a.nonce.seenOnceAt(nonce, t.Add(a.Tolerance), cur) {
 		return ErrUnauthorized
 	}
 
@@ -162,7 +165,10 @@ func (c *nonceCache) setNow(now func() time.Time) {
 	c.mu.Unlock()
 }
 
-func (c *nonceCache) seenOnce(nonce string, expiresAt time.Time) bool {
+// seenOnceAt records nonce and reports whether it was new at instant now. A
+// nonce stays live up to and including expiresAt, the last instant at which
+// its signed timestamp still passes the tolerance check.
+func (c *nonceCache) seenOnceAt(nonce string, expiresAt time.Time, now time.Time) bool {
 	if nonce == "" {
 		return false
 	}
@@ -171,14 +177,14 @@ func (c *nonceCache) seenOnce(nonce string, expiresAt time.Time) bool {
 	defer c.mu.Unlock()
 
 	// Opportunistic cleanup.
-	now := c.now().UTC()
+	now = now.UTC()
 	for k, exp := range c.m {
-		if !now.Before(exp) {
+		if now.After(exp) {
 			delete(c.m, k)
 		}
 	}
 
-	if exp, ok := c.m[nonce]; ok && now.Before(exp) {
+	if exp, ok := c.m[nonce]; ok && !now.After(exp) {
 		return false
 	}
 	c.m[nonce] = expiresAt.UTC()
